@@ -417,6 +417,32 @@ pub fn gen_write_err(seed: u64, restrict: &Restrict) -> Plan {
     }
 }
 
+// ===================================================================== history arm
+
+/// A client program: 1-3 values that arrive through a decoder, then up to 8 public operations.
+pub fn gen_history(seed: u64, restrict: &Restrict) -> Plan {
+    let mut rng = Rng::new(seed);
+    let rng = &mut rng;
+    let bits = restrict.bits.unwrap_or_else(|| *rng.pick(WIDTHS));
+    let mut p = Plan::new("history", "ops", bits, Config::Control);
+    p.seed = seed;
+    let n = rng.range(1, 3);
+    p.records = (0..n).map(|_| gen_value(rng, bits)).collect();
+    let steps = rng.range(1, 8);
+    for _ in 0..steps {
+        let op = rng.below(crate::history::NOPS as usize) as u64;
+        let k = match rng.below(6) {
+            0 => *rng.pick(&[0u64, 1, 2, 7, 8, 63, 64, 65, 127, 128]),
+            1 => (bits as u64).wrapping_add(*rng.pick(&[0u64, 1, 2])).wrapping_sub(1),
+            2 => 2 * bits as u64 + rng.below(3) as u64,
+            3 => u64::MAX - rng.below(3) as u64,
+            _ => rng.next(),
+        };
+        p.aux.extend([op, rng.below(8) as u64, rng.below(8) as u64, k]);
+    }
+    p
+}
+
 // ===================================================================== exhaustive sub-spaces
 
 /// Widths small enough to enumerate every value / every short input.
